@@ -6,7 +6,7 @@ CRC, timers, endpoint multiplexer, setup decoder, request multiplexer, packet ge
 reset sequencer.
 
 Environment: slotted symbolic host (lib/host.py): every slot is one symbolic transaction (SETUP with 8 symbolic bytes,
-IN with/without host ACK, OUT + DATA0/1 with 0..2 bytes, SOF, nothing), symbolic endpoint and address.
+IN with/without host ACK, OUT + DATA0/1, PING, SOF, nothing), symbolic endpoint and address.
 
 Oracles
   * self-composition ("fresh transfer"): device A sees the whole script; device B sees nothing before slot j (a
@@ -22,7 +22,7 @@ Oracles
 from amaranth import *
 from ..harness import Harness
 from ..engine import Query
-from ..lib.host import SlottedHost, TxSpy, slot_cubes, KIND_NONE, KIND_SETUP, KIND_IN, KIND_OUT, KIND_SOF, KIND_HSK
+from ..lib.host import SlottedHost, TxSpy, slot_cubes, KIND_NONE, KIND_SETUP, KIND_IN, KIND_OUT, KIND_SOF, KIND_HSK, KIND_PING
 
 PROP = "C07"
 ENCODED = ["luna/gateware/usb/usb2/control.py: USBControlEndpoint (stage FSM, _handle_setup_reset)",
@@ -133,8 +133,8 @@ class CtrlHarness(Harness):
                             g_out_seen.eq(0), g_in_seen.eq(0)]
             with m.Elif((hA.cur_kind == KIND_SETUP) & to_us & ep0):
                 pass
-            with m.Elif((hA.cur_kind == KIND_OUT) & to_us & ep0):
-                m.d.usb += g_out_seen.eq(1)
+            with m.Elif(((hA.cur_kind == KIND_OUT) | (hA.cur_kind == KIND_PING)) & to_us & ep0):
+                m.d.usb += g_out_seen.eq(1)          # an OUT or PING token on endpoint 0 ends an IN data stage [USB 2.0 8.5.3]
             with m.Elif((hA.cur_kind == KIND_IN) & to_us & ep0):
                 m.d.usb += g_in_seen.eq(1)
         # recorded finding: the standard-request handlers do not validate direction / wLength.  A GET_STATUS / GET_DESCRIPTOR /
@@ -181,8 +181,13 @@ class CtrlHarness(Harness):
         g = Signal(64)                  # the 8 SETUP bytes of the previous slot
         prior_setups = Signal(2)        # valid SETUPs seen so far, including the previous slot (saturating)
         prior_in_data = Signal()        # some earlier transfer got IN data (its data stage was entered)
+        # (prev_valid_setup: a valid SETUP was received and no token for endpoint 0 of this device has been seen since --
+        #  traffic for other endpoints / addresses, SOFs and idle slots in between must not matter)
         with m.If(judge):
-            m.d.usb += [prev_valid_setup.eq(valid_setup), g.eq(sd)]
+            with m.If(valid_setup):
+                m.d.usb += [prev_valid_setup.eq(1), g.eq(sd)]
+            with m.Elif((hA.cur_kind != KIND_NONE) & (hA.cur_kind != KIND_SOF) & to_us & ep0):
+                m.d.usb += prev_valid_setup.eq(0)
             with m.If(valid_setup & (prior_setups != 3)):
                 m.d.usb += prior_setups.eq(prior_setups + 1)
             with m.If(in_slot & sent_data & (payload_len != 0)):
@@ -335,10 +340,10 @@ def queries(tier):
     zl3 = {f"s{i}_olen": 0 for i in range(3)}      # OUT data packets are zero-length (status stage) in this check
     zl4 = {f"s{i}_olen": 0 for i in range(4)}
     if tier == "quick":
-        cubes = list(slot_cubes(3, "SIiP", first="S", extra=zl3)) + \
+        cubes = list(slot_cubes(3, "SIiPG", first="S", extra=zl3)) + \
             [c for c in slot_cubes(3, "SI", first="IPN", extra=zl3) if c[0][1] == "S"]
     else:
-        cubes = list(slot_cubes(3, "SsIiPQoNF", extra=zl3))
+        cubes = list(slot_cubes(3, "SsIiPQoNFG", extra=zl3))
     ALL = ["in_gets_ack", "out_gets_data", "setup_ack", "corrupt_setup_silent", "data_stage_only", "zlp_stage",
            "status_out_ack", "other_ep_silent", "single_response", "fresh_first_response"]
     for name, layer in cubes:
